@@ -2413,3 +2413,181 @@ Proof.
   - now apply nodupn_NoDup.
   - intros s w dir A. specialize (H5 _ A). simpl in H5. now apply Nat.eqb_eq.
 Qed.
+
+(* ================================================================================================ *)
+(* the LHSMaskCollector mask contains every bit the target may address                              *)
+(* ================================================================================================ *)
+Definition mset (acc : list (nat * nat * Z)) (s b : nat) : Prop :=
+  exists w m, In (s, w, m) acc /\ b < w /\ Z.testbit m (Z.of_nat b) = true.
+
+Lemma mset_claims acc s b : mset acc s b <-> In (s, b) (mask_claims acc).
+Proof.
+  unfold mset, mask_claims. rewrite in_flat_map. split.
+  - intros (w & m & H1 & H2 & H3). exists (s, w, m). split; [assumption|]. apply in_map.
+    apply filter_In. split; [apply in_seq; lia|assumption].
+  - intros [[[s' w] m] [H1 H2]]. apply in_map_iff in H2 as [b' [E H2]]. inversion E; subst.
+    apply filter_In in H2 as [H2 H3]. apply in_seq in H2. exists w, m. repeat split; auto. lia.
+Qed.
+
+Section Widths.
+Variable W : nat -> nat.
+Definition acc_ok (acc : list (nat * nat * Z)) : Prop := forall s w m, In (s, w, m) acc -> w = W s.
+Definition sigs_ok (t : tgt) : Prop := forall s w, In (s, w) (tgt_sigs t) -> w = W s.
+
+Lemma mask_or_ok s m : forall acc, acc_ok acc -> acc_ok (mask_or s (W s) m acc).
+Proof.
+  induction acc as [|[[s0 w0] m0] acc IH]; intros A s' w' m' H; simpl in H.
+  - destruct H as [H|[]]. inversion H; subst. reflexivity.
+  - destruct (Nat.eqb s0 s) eqn:E.
+    + destruct H as [H|H]; [inversion H; subst; eapply A; now left|eapply A; right; exact H].
+    + destruct H as [H|H]; [inversion H; subst; eapply A; now left|].
+      eapply IH; [|exact H]. intros ? ? ? Hi. eapply A. right. exact Hi.
+Qed.
+
+Lemma mask_or_mono s m : forall acc s' b, mset acc s' b -> mset (mask_or s (W s) m acc) s' b.
+Proof.
+  induction acc as [|[[s0 w0] m0] acc IH]; intros s' b (w & m1 & H1 & H2 & H3); [destruct H1|]. simpl.
+  destruct (Nat.eqb s0 s) eqn:E.
+  - destruct H1 as [H1|H1].
+    + inversion H1; subst. exists w, (Z.lor m1 m). split; [now left|]. split; [assumption|]. rewrite Z.lor_spec, H3. reflexivity.
+    + exists w, m1. split; [now right|auto].
+  - destruct H1 as [H1|H1].
+    + exists w, m1. split; [now left|auto].
+    + destruct (IH s' b (ex_intro _ w (ex_intro _ m1 (conj H1 (conj H2 H3))))) as (w2 & m2 & A & B & C).
+      exists w2, m2. split; [now right|auto].
+Qed.
+
+Lemma mask_or_set s m b : forall acc, acc_ok acc -> b < W s -> Z.testbit m (Z.of_nat b) = true ->
+  mset (mask_or s (W s) m acc) s b.
+Proof.
+  induction acc as [|[[s0 w0] m0] acc IH]; intros A Hb Hm; simpl.
+  - exists (W s), m. split; [now left|auto].
+  - destruct (Nat.eqb s0 s) eqn:E.
+    + apply Nat.eqb_eq in E. subst s0. assert (w0 = W s) by (eapply A; now left). subst w0.
+      exists (W s), (Z.lor m0 m). split; [now left|]. split; [assumption|]. rewrite Z.lor_spec, Hm. apply orb_true_r.
+    + destruct IH as (w2 & m2 & X & Y & Z0); auto; [intros ? ? ? Hi; eapply A; right; exact Hi|].
+      exists w2, m2. split; [now right|auto].
+Qed.
+
+Definition lhs_mask_cat := fix go (ps : list tgt) (mask : Z) (acc : list (nat * nat * Z)) :=
+  match ps with
+  | [] => acc
+  | p :: ps' => go ps' (Z.shiftr mask (Z.of_nat (tlen p))) (lhs_mask p mask acc)
+  end.
+Definition lhs_mask_sw (mask : Z) := fix go (es : list tgt) (acc : list (nat * nat * Z)) :=
+  match es with
+  | [] => acc
+  | e :: es' => go es' (lhs_mask e mask acc)
+  end.
+
+(* visiting a target keeps the table well-formed and never clears a bit *)
+Definition keeps (t : tgt) : Prop := sigs_ok t -> forall mask acc, acc_ok acc ->
+  acc_ok (lhs_mask t mask acc) /\ (forall s b, mset acc s b -> mset (lhs_mask t mask acc) s b).
+
+Lemma sigs_ok_in (ps : list tgt) p : (forall s w, In (s, w) (flat_map tgt_sigs ps) -> w = W s) -> In p ps -> sigs_ok p.
+Proof. intros H Hp s w Hs. apply H. apply in_flat_map. eauto. Qed.
+
+Lemma keeps_all : forall t, keeps t.
+Proof.
+  induction t as [s' w|a IH|a lo hi IH|a offw w st IH|ps IH|w es IH] using tgt_ind'; intros S mask acc A.
+  - simpl. assert (w = W s') as -> by (apply S; now left). split; [now apply mask_or_ok|intros; now apply mask_or_mono].
+  - simpl. now apply IH.
+  - simpl. now apply IH.
+  - simpl. now apply IH.
+  - change (lhs_mask (TCat ps) mask acc) with (lhs_mask_cat ps mask acc). simpl in S.
+    revert mask acc A. induction ps as [|p ps IHps]; intros mask acc A; cbn [lhs_mask_cat]; [auto|].
+    inversion IH as [|? ? Hp Hr]; subst.
+    destruct (Hp (sigs_ok_in (p :: ps) p S (or_introl eq_refl)) mask acc A) as [A1 M1].
+    destruct (IHps Hr (fun s w H => S s w (in_or_app _ _ _ (or_intror H))) (Z.shiftr mask (Z.of_nat (tlen p))) _ A1) as [A2 M2].
+    split; [assumption|]. intros s b H. apply M2, M1, H.
+  - change (lhs_mask (TSwitch w es) mask acc) with (lhs_mask_sw mask es acc). simpl in S.
+    revert acc A. induction es as [|e es IHes]; intros acc A; cbn [lhs_mask_sw]; [auto|].
+    inversion IH as [|? ? He Hr]; subst.
+    destruct (He (sigs_ok_in (e :: es) e S (or_introl eq_refl)) mask acc A) as [A1 M1].
+    destruct (IHes Hr (fun s w H => S s w (in_or_app _ _ _ (or_intror H))) _ A1) as [A2 M2].
+    split; [assumption|]. intros s b H. apply M2, M1, H.
+Qed.
+
+(* bit facts *)
+Lemma ones_mask w : (Z.shiftl 1 (Z.of_nat w) - 1 = Z.ones (Z.of_nat w))%Z.
+Proof. rewrite Z.ones_equiv, Z.shiftl_1_l. lia. Qed.
+Lemma range_mask lo hi : lo <= hi ->
+  (Z.shiftl 1 (Z.of_nat hi) - Z.shiftl 1 (Z.of_nat lo) = Z.shiftl (Z.ones (Z.of_nat (hi - lo))) (Z.of_nat lo))%Z.
+Proof.
+  intro H. rewrite !Z.shiftl_1_l, Z.ones_equiv, Z.shiftl_mul_pow2 by lia.
+  replace (Z.of_nat hi) with (Z.of_nat (hi - lo) + Z.of_nat lo)%Z by lia. rewrite Z.pow_add_r by lia. lia.
+Qed.
+
+(* the bits a target may address under `mask` are set *)
+Definition sets (t : tgt) : Prop := sigs_ok t -> forall mask acc k s b, acc_ok acc ->
+  addr t k s b -> Z.testbit mask (Z.of_nat k) = true -> mset (lhs_mask t mask acc) s b.
+
+Lemma sets_all : forall t, sets t.
+Proof.
+  induction t as [s' w|a IH|a lo hi IH|a offw w st IH|ps IH|w es IH] using tgt_ind'; intros S mask acc k s b A Ha Hm.
+  - simpl in Ha. destruct Ha as (-> & -> & Hb). simpl. assert (w = W s) as -> by (apply S; now left).
+    apply mask_or_set; [assumption|assumption|].
+    rewrite Z.land_spec, Hm, ones_mask, Z.ones_spec_low by lia. reflexivity.
+  - simpl in *. eapply IH; eassumption.
+  - simpl in Ha. destruct Ha as [Hk Ha]. simpl. eapply (IH S _ acc (k + lo)); [assumption|exact Ha|].
+    rewrite Z.land_spec, range_mask by lia. rewrite !Z.shiftl_spec by lia.
+    replace (Z.of_nat (k + lo) - Z.of_nat lo)%Z with (Z.of_nat k) by lia. rewrite Hm, Z.ones_spec_low by lia. reflexivity.
+  - simpl in Ha. destruct Ha as [Hk [o [Ho Ha]]]. simpl. eapply (IH S _ acc (k + o * st)); [assumption|exact Ha|].
+    apply Z.bits_m1. lia.
+  - change (lhs_mask (TCat ps) mask acc) with (lhs_mask_cat ps mask acc).
+    change (addr (TCat ps) k s b) with (addr_cat k s b ps 0) in Ha. simpl in S.
+    assert (G : forall off mask acc, acc_ok acc -> addr_cat k s b ps off -> off <= k ->
+                Z.testbit mask (Z.of_nat (k - off)) = true -> mset (lhs_mask_cat ps mask acc) s b).
+    { clear mask acc A Ha Hm. induction ps as [|p ps IHps]; intros off mask acc A Ha Hoff Hm; cbn [addr_cat lhs_mask_cat] in *; [destruct Ha|].
+      inversion IH as [|? ? Hp Hr]; subst.
+      assert (Sp : sigs_ok p) by exact (sigs_ok_in (p :: ps) p S (or_introl eq_refl)).
+      assert (Sr : forall s w, In (s, w) (flat_map tgt_sigs ps) -> w = W s) by (intros s0 w0 H; apply S; apply in_or_app; now right).
+      destruct (keeps_all p Sp mask acc A) as [A1 _].
+      destruct Ha as [(H1 & H2 & Ha)|Ha].
+      - pose proof (Hp Sp mask acc (k - off) s b A Ha Hm) as M.
+        assert (Kr : forall ps0 mask0 acc0, (forall s w, In (s, w) (flat_map tgt_sigs ps0) -> w = W s) -> acc_ok acc0 ->
+                       mset acc0 s b -> mset (lhs_mask_cat ps0 mask0 acc0) s b).
+        { clear. induction ps0 as [|q ps0 IHq]; intros mask0 acc0 Sq A0 M0; cbn [lhs_mask_cat]; [assumption|].
+          destruct (keeps_all q (sigs_ok_in (q :: ps0) q Sq (or_introl eq_refl)) mask0 acc0 A0) as [Aq Mq].
+          apply IHq; [intros s0 w0 H; apply Sq; apply in_or_app; now right|assumption|now apply Mq]. }
+        apply Kr; assumption.
+      - apply (IHps Hr Sr (off + tlen p)); [assumption|exact Ha| |].
+        + clear - Ha. revert Ha. generalize (off + tlen p). induction ps as [|q ps IHq]; intros o Ha; cbn [addr_cat] in Ha; [destruct Ha|].
+          destruct Ha as [(H1 & _)|Ha]; [assumption|]. apply IHq in Ha. lia.
+        + assert (off + tlen p <= k).
+          { clear - Ha. revert Ha. generalize (off + tlen p). induction ps as [|q ps IHq]; intros o Ha; cbn [addr_cat] in Ha; [destruct Ha|].
+            destruct Ha as [(H1 & _)|Ha]; [assumption|]. apply IHq in Ha. lia. }
+          rewrite Z.shiftr_spec by lia. replace (Z.of_nat (k - (off + tlen p)) + Z.of_nat (tlen p))%Z with (Z.of_nat (k - off)) by lia.
+          exact Hm. }
+    apply (G 0 mask acc A Ha); [lia|]. now rewrite Nat.sub_0_r.
+  - change (lhs_mask (TSwitch w es) mask acc) with (lhs_mask_sw mask es acc).
+    change (addr (TSwitch w es) k s b) with (addr_sw k s b es) in Ha. simpl in S.
+    revert acc A. induction es as [|e es IHes]; intros acc A; cbn [addr_sw lhs_mask_sw] in *; [destruct Ha|].
+    inversion IH as [|? ? He Hr]; subst.
+    assert (Se : sigs_ok e) by exact (sigs_ok_in (e :: es) e S (or_introl eq_refl)).
+    assert (Sr : forall s w, In (s, w) (flat_map tgt_sigs es) -> w = W s) by (intros s0 w0 H; apply S; apply in_or_app; now right).
+    destruct (keeps_all e Se mask acc A) as [A1 _].
+    destruct Ha as [[_ Ha]|Ha].
+    + pose proof (He Se mask acc k s b A Ha Hm) as M.
+      clear - M A1 Sr. revert M A1. generalize (lhs_mask e mask acc). induction es as [|q es IHq]; intros acc0 M0 A0; cbn [lhs_mask_sw]; [assumption|].
+      destruct (keeps_all q (sigs_ok_in (q :: es) q Sr (or_introl eq_refl)) mask acc0 A0) as [Aq Mq].
+      apply IHq; [intros s0 w0 H; apply Sr; apply in_or_app; now right|now apply Mq|assumption].
+    + apply (IHes Hr Sr Ha _ A1).
+Qed.
+
+Theorem mask_covers_may_drive t s b : sigs_ok t -> may_drive t s b -> In (s, b) (mbits t).
+Proof.
+  intros S (k & _ & Ha). unfold mbits. apply mset_claims.
+  apply (sets_all t S (-1)%Z [] k s b); [intros ? ? ? []|exact Ha|apply Z.bits_m1; lia].
+Qed.
+End Widths.
+
+(* the early check never misses an intra-module domain conflict *)
+Theorem early_check_complete W stmts :
+  (forall dm t, In (dm, t) stmts -> sigs_ok W t) ->
+  (exists s b d1 t1 d2 t2, d1 <> d2 /\ In (d1, t1) stmts /\ In (d2, t2) stmts /\ may_drive t1 s b /\ may_drive t2 s b) ->
+  early_conflict stmts <> None.
+Proof.
+  intros S (s & b & d1 & t1 & d2 & t2 & Hd & H1 & H2 & M1 & M2). apply early_conflict_iff.
+  exists (s, b), d1, t1, d2, t2. repeat split; auto; eapply mask_covers_may_drive; eauto.
+Qed.
